@@ -543,7 +543,7 @@ func main() {
 	for i, s := range sites {
 		var caps []string
 		for _, c := range s.caps {
-			caps = append(caps, codes(c[0]))
+			caps = append(caps, fmt.Sprintf("(%s, %s)", codes(c[0]), codes(c[1])))
 		}
 		fmt.Printf("def n%d : NSite := ⟨%d, %d, %s, %v, %s, %s, %s, %s, [%s]⟩\n", i, i, s.sig, codes(s.recv), s.lit, nw(s.doW), nw(s.unW), ncs(s.doC), ncs(s.unC), strings.Join(caps, ", "))
 		nn = append(nn, fmt.Sprintf("n%d", i))
